@@ -453,7 +453,7 @@ class C05(Property):
                 mh = {kk: vv for kk, vv in h.items() if kk in ("i", "op", "lo", "hi", "n", "a", "b", "w")}
                 mhist.append(mh)
                 midx.append(k)
-            ans = driver.ask("C05", {"seeds": [seed_for_model(s) for s in case["seeds"]], "hist": mhist})
+            ans = driver.ask({"seeds": [seed_for_model(s) for s in case["seeds"]], "hist": mhist})
             model = ans["model"]
             for (inst, mo), k in zip(model, midx):
                 h, o = hist[k], impl[k]
